@@ -195,6 +195,15 @@ def flags(ctx):
         any(isinstance(n, ast.If) and '.constant is not None' in src(n.test) for n in body_walk(sp.node))
     ctx.check(ok, f'{sp.qualname}:tests readonly and constant', sp.node, 'dispatcher tests .readonly and .constant',
               'the dispatcher does not test the described flags', sp)
+    for fi in [m.method(D, '_setParameterValue', inherited=False), m.method(D, '_getParameterValue', inherited=False), fin]:
+        for n in body_walk(fi.node):
+            if isinstance(n, (ast.If, ast.IfExp, ast.While)) and any(isinstance(x, ast.Attribute) and x.attr == 'constant' for x in ast.walk(n.test)):
+                t = n.test
+                none_test = isinstance(t, ast.Compare) and len(t.ops) == 1 and isinstance(t.ops[0], (ast.Is, ast.IsNot)) and \
+                    isinstance(t.comparators[0], ast.Constant) and t.comparators[0].value is None
+                ctx.check(none_test, f'{fi.qualname}:constant tested against None', n, f'`{src(t)}`',
+                          f'`{src(t)}` tests the constant by truthiness: a constant whose serialised value is falsy (0, 0.0, \'\', False, enum code 0) is '
+                          'not treated as constant - it reads as the cached value instead of the described constant (or can be changed)', fi)
     init = m.method(roles.MODULE, '__init__', inherited=False)
     ctx.analysed(init)
     for attr in ('implementation', 'interface_classes', 'features'):
@@ -265,3 +274,18 @@ def constant_slot_representation(ctx):
               f'`{src(stores_t[0][1]) if stores_t else ""}` stores the transport form into the same slot, and finish() runs '
               'once per clone/merge/instance: a ScaledInteger(0.1) constant 1.5 is described as 1500 instead of 15, '
               'a BLOBType constant makes the module un-instantiable', fi)
+
+
+@rule('C06.R6', min_instances=3)
+def change_path_validates_like_the_description(ctx):
+    """shared with C04.R2: the change path validates the payload with the described datatype and the cached value as
+    `previous` (partial structs are merged), and hands exactly that value on"""
+    from sa.rules import c04
+    c04.validated_value_is_used(ctx)
+    m = ctx.m
+    f = m.method(D, '_setParameterValue', inherited=False)
+    vals = [c for c in calls_in(f.node) if call_attr(c) == 'validate' and src(c.func.value).endswith('.datatype')]
+    ctx.check(bool(vals) and all(kwarg(c, 'previous') is not None for c in vals), f'{f.qualname}:validate(previous=cache) on the change path', f.node,
+              'pobj.datatype.validate(value, previous=pobj.value)',
+              'the change path does not validate with previous=<cached value>: a partial struct that the described datainfo accepts is refused '
+              '(or cached incomplete) by the node', f)
